@@ -326,7 +326,7 @@ func init() {
 	registerSeqPlus("C15", func(ctx *core.Ctx, tier string) {
 		runMergeOutputs(ctx, tier)
 	}, func(tier string) []*seqProp {
-		opts := []r69.Options{{Neg: true, EscapeHTML: true}, {Neg: true, EscapeHTML: false}}
+		opts := []r69.Options{{Neg: true, EscapeHTML: true}, {Neg: true, EscapeHTML: false}, {Neg: true, EscapeHTML: false, Ensure: true}}
 		docs := []string{
 			`{"h":"<>&","<k>":{"x":"a<b"},"a":[1,"&"]}`,
 			"{\"u\":\"\u2028x\u2029\",\"q\":\"\\\"\\\\\\n\",\"s\":{\"\U0001F600\":\"\\ud83d\\ude00\",\"l\":\"\\ud800\"}}",
